@@ -68,6 +68,7 @@ MUTANTS = [
     {"name": "revert-6f3d216-not-taken-values", "revert": "6f3d216", "props": ["C06"]},
     {"name": "revert-6a12ebb-lax-max_digits-carry", "revert": "6a12ebb", "props": ["C03"]},
     {"name": "revert-2b13b3c-lax-multiple_of-float-drift", "revert": "2b13b3c", "props": ["C03"]},
+    {"name": "revert-2c2374b-safe-repr-of-items", "revert": "2c2374b", "props": ["C04"]},
     # ---- C01 ------------------------------------------------------------------------------
     {"name": "c01-seq-first-element-unconverted", "props": ["C01"], "edits": [{"file": R, "old": """                try:
                     result.append(
